@@ -73,14 +73,40 @@ def shown_version(out):
 
 
 # ------------------------------------------------------------------ hist
-def run_hist(ops, res, rc):
+VIAS = ["template-moddir", "template-modfile", "lookup-moddir", "lookup-callable"]
+
+
+def run_hist(ops, res, rc, via="template-moddir"):
+    """via: how the Template comes to life - constructed directly (module_directory / module_filename) or by a fresh
+    TemplateLookup (module_directory / modulename_callable WITHOUT a module directory); the rules are the same"""
     base = tempfile.mkdtemp(prefix="c15h-")
     clock = _st["clock"]
     T = _st["Template"]
+    rc = dict(rc, via=via)
     try:
         src = os.path.join(base, "t.html")
         md = os.path.join(base, "mods")
         mp = modpath(md, src)
+        if via == "template-modfile":
+            mp = os.path.join(base, "mf", "custom_t.py")
+            os.makedirs(os.path.dirname(mp))
+        elif via == "lookup-moddir":
+            mp = os.path.join(md, "t.html.py")
+        elif via == "lookup-callable":
+            mp = os.path.join(base, "cb", "named_by_callable.py")
+            os.makedirs(os.path.dirname(mp))
+
+        def construct(writer):
+            if via == "template-moddir":
+                return T(filename=src, module_directory=md, module_writer=writer)
+            if via == "template-modfile":
+                return T(filename=src, module_filename=mp, module_writer=writer)
+            from mako.lookup import TemplateLookup
+            if via == "lookup-moddir":
+                lk = TemplateLookup(directories=[base], module_directory=md, module_writer=writer)
+            else:
+                lk = TemplateLookup(directories=[base], modulename_callable=lambda filename, uri: mp, module_writer=writer)
+            return lk.get_template("/t.html")
         ver = 1
         clock.now = CLOCK0
         with open(src, "w") as f:
@@ -129,10 +155,10 @@ def run_hist(ops, res, rc):
                     st = os.stat(mp)
                     before = (st.st_ino, open(mp, "rb").read())
                 try:
-                    t = T(filename=src, module_directory=md, module_writer=writer if use_writer else None)
+                    t = construct(writer if use_writer else None)
                     out = t.render_unicode()
                 except Exception as e:
-                    res.violate("construct-raises", "history %r: construct raised %s: %s" % (ops, type(e).__name__, e), replay_case=rc)
+                    res.violate("construct-raises", "[" + via + "] history %r: construct raised %s: %s" % (ops, type(e).__name__, e), replay_case=rc)
                     return
                 sv = shown_version(out)
                 if due:
@@ -150,7 +176,7 @@ def run_hist(ops, res, rc):
                     if use_writer:
                         res.count("module_writer_calls_checked")
                         if len(calls) != 1 or calls[0] != ("bytes", mp):
-                            res.violate("module-writer-calls", "history %r: rewrite due, module_writer calls = %r (expected one call with bytes and %r)" % (ops, calls, mp), replay_case=rc)
+                            res.violate("module-writer-calls", "[" + via + "] history %r: rewrite due, module_writer calls = %r (expected one call with bytes and %r)" % (ops, calls, mp), replay_case=rc)
                 else:
                     res.count("constructs_not_due")
                     seen.add("notdue")
@@ -411,14 +437,14 @@ def run_case(case):
     res = common.CaseResult()
     k = case["kind"]
     if k == "hist":
-        for ops in case["histories"]:
-            run_hist(ops, res, {"kind": "hist", "histories": [ops]})
+        for n_, ops in enumerate(case["histories"]):
+            run_hist(ops, res, {"kind": "hist", "histories": [ops]}, via=case.get("via") or VIAS[(n_ + len(ops)) % len(VIAS)])
         res.sample = {"kind": "hist", "history": case["histories"][-1]}
     elif k == "randhist":
         r = common.rng_for(case["seed"], "c15", case["index"])
         for _ in range(case["n"]):
             ops = [r.choice(OPS + ["construct", "construct"]) for _ in range(r.randint(5, 12))]
-            run_hist(ops, res, {"kind": "hist", "histories": [ops]})
+            run_hist(ops, res, {"kind": "hist", "histories": [ops]}, via=r.choice(VIAS))
     elif k == "crash":
         run_crash(case, res)
     elif k == "race":
